@@ -754,6 +754,7 @@ type Frame struct {
 	nonnil map[string][]*ssa.BasicBlock
 	inheritedNonNil map[string]bool
 	locals map[string]ssa.Value
+	freeVals map[string]*Val
 	autoBounds map[*ssa.BasicBlock]func(*State, map[*ssa.Phi]*Val, *ssa.BasicBlock, string)
 }
 
